@@ -475,7 +475,7 @@ def run(ctx):
                "are left outstanding on purpose (an answer crossing into a later epoch is classified by the messages answered during that epoch)")
     ctx.assume("void results are not served for paged statements; UNPREPARED is served to EXECUTE only")
     n = ctx.scale(4000, 200000)
-    budget = 14 if ctx.quick else 150      # CPU seconds of this worker (ctx.time_left), wall is capped at 4x
+    budget = 14 if ctx.quick else 130      # CPU seconds of this worker (ctx.time_left), wall is capped at 4x
     base = ctx.seed * 1000003 + (ctx.worker or 0) * 100003
     # budget by time, but never fewer histories than the floors need (a loaded machine must not turn the verdict inconclusive)
     at_least = 70 if ctx.quick else 300
